@@ -30,7 +30,7 @@ PLAN = {
     "thorough": {"shards": 16, "shard_timeout": 3600, "case_timeout": 60, "cases": 1000000, "max_case_timeouts": 10},
 }
 THRESHOLDS = {
-    "quick": {"contract_evaluations": 100000, "impl:native": 5000, "impl:ge": 5000, "impl:stack": 5000, "impl:sge": 5000, "impl:dsge": 1000, "exhaustive_spaces": 100, "decider_random_int": 20000, "wide_ranges": 3000, "zero_weight_offers": 2000, "same_seed_streams": 20},
+    "quick": {"contract_evaluations": 100000, "impl:native": 5000, "impl:ge": 5000, "impl:stack": 5000, "impl:sge": 5000, "impl:dsge": 1000, "exhaustive_spaces": 100, "decider_random_int": 20000, "wide_ranges": 3000, "zero_weight_offers": 2000, "same_seed_streams": 20, "decider_widths_enumerated": 3000},
     "thorough": {"contract_evaluations": 2000000, "exhaustive_spaces": 2000, "decider_random_int": 400000},
 }
 
@@ -216,6 +216,10 @@ def gen_cases(tier, seed):
     kinds = ["native", "ge", "stack", "sge", "dsge", "exhaustive", "decider", "dsge-decider", "seeds"]
     for i in range(n):
         yield {"kind": kinds[i % len(kinds)], "seed": rng.randrange(10**9), "i": i}
+    # the deciders' wide-range draw has a small decision tree (n, e, sign): enumerate ALL draws for EVERY width of a band
+    top = 2400 if tier == "quick" else 40000
+    for lo in range(1001, top, 50):
+        yield {"kind": "decider-exhaustive", "lo": lo, "hi": min(lo + 50, top), "seed": 0, "i": lo}
 
 
 def make_source(kind, rng):
@@ -299,6 +303,8 @@ def run_case(case, rec):
         dsge_decider(rng, rec)
     elif kind == "seeds":
         same_seed(rng, rec)
+    elif kind == "decider-exhaustive":
+        decider_exhaustive(case, rec)
 
 
 def exhaustive(rng, rec):
@@ -374,6 +380,33 @@ def deciders(rng, rec):
                 _viol("decider-random_float-not-float:BaseDecider", {"result": core.short(f)})
         except BaseException as e:  # noqa
             _viol(f"decider-primitive-raises:BaseDecider:{type(e).__name__}", {"error": core.short(e)})
+
+
+def decider_exhaustive(case, rec):
+    """Every sequence of draws of BaseDecider.random_int, for every width in [lo, hi) and three placements of the range."""
+    from geneticengine.representations.tree import initializations as I
+
+    REC["impl"] = "scripted"
+
+    class Plain(I.BaseDecider):
+        def choose_production_alternatives(self, ty, alternatives, ctx):
+            return alternatives[0]
+
+    for w in range(case["lo"], case["hi"]):
+        for a in (0, -(w // 2), 1):
+            b = a + w
+            runs = 0
+            try:
+                for res, log in sources.enumerate_runs(lambda s: Plain(s, None).random_int(a, b), max_runs=5000):
+                    runs += 1
+                    if isinstance(res, BaseException):
+                        _viol(f"decider-random_int-raises:BaseDecider:{type(res).__name__}", {"min": a, "max": b, "draws": [x[0] for x in log], "error": core.short(res)})
+            except (sources.NotFiniteChoice, sources.TooManyRuns):
+                rec.count("decider_exhaustive_not_finite")
+                continue
+            rec.count("decider_widths_enumerated")
+            rec.count("exhaustive_decider_draw_sequences", runs)
+    rec.sample({"exhaustive": "BaseDecider.random_int", "widths": [case["lo"], case["hi"] - 1], "placements": "0.., centred, 1.."}, cap=6)
 
 
 def core_native(rng):
